@@ -1,0 +1,23 @@
+//go:build verif
+
+// Contracts for package taskfile, read by /verif/bin/gvc (contract-based deductive verification).
+// This file contains comments only; it is compiled only under the build tag "verif".
+package taskfile
+
+// A snippet always holds as many highlighted lines as raw lines (String indexes one with the other).
+//@ typeinv *github.com/go-task/task/v3/taskfile.Snippet : len(self.linesRaw) == len(self.linesHighlighted)
+//@ func NewSnippet
+//@   sweep                                                          [C16]
+//@   ensures len(result.linesRaw) == len(result.linesHighlighted)  [C16]
+//@ func (*Snippet).String
+//@   sweep                                                          [C16]
+//@ func digits
+//@   sweep                                                          [C16]
+//@ func NewGitNode
+//@   sweep                                                          [C16]
+//@ func NewGitNode$1
+//@   sweep                                                          [C16]
+//@   pure allocates
+//@   requires u != nil
+//@ func getScheme
+//@   sweep                                                          [C16]
